@@ -8,6 +8,7 @@ PROPS = {
         "timeout": {"quick": 600, "thorough": 3000},
         "rule": "evaluation = one TPM command (ReadClock/ClockSet/ClockRateAdjust/Startup/Shutdown/ClearControl/GetCapability) or restart/suspend/resume event replayed through Model.Clock; distinct_nontrivial = distinct (op, rc, stored?, safe) model outcomes + restart/resume host-clock classes hit",
         "partial": ["safe_until_passed: holds only under the hypothesis that the stored Clock lags the live one by < 2^NV_CLOCK_UPDATE_INTERVAL ms (theorem safe_until_passed_partial); its failure for the code as it is is theorem safe_until_passed_fails and known finding F",
+                    "never ahead of elapsed host time: proved per TimerRead step (advance_le_host / advance_le_scaled); over many fine-grained polls at a faster rate it fails for the code as it is (theorem never_ahead_fails, known finding G)",
                     "monotonicity theorems carry explicit no-64-bit-overflow hypotheses (2^64 ms)"],
         "modelled": COMMON_MODELLED + ["Clock.c, Time.c, ClockCommands.c, counter part of TPM2_Startup/Shutdown, VolatileState v4 clock tail: modelled by hand in Model/Clock.lean; constants generated"],
         "assumptions": ["host CLOCK_MONOTONIC does not go backwards within one run (arbitrary across suspend/resume)", "virtual clock via -Dclock_gettime redirect on Clock.c"],
